@@ -310,6 +310,15 @@ func vhStepCreateLeaf(prop string) {
 			}
 			verifrt.Assert(tip.Weight == w+1, "C09/createleaf/weight-is-max-plus-one")
 			verifrt.Assert(tip.SignerPublicAddress == vhNodeAddr, "C09/createleaf/sealed-by-this-node")
+			// "tips that were valid at that moment": each parent passes the real leaf validation under a context
+			// that is never cancelled (adding a child does not change what the validation of the parent reads)
+			for _, ph := range [][32]byte{tip.LeftParentHash, tip.RightParentHash} {
+				pv, rerr := l.ab.readVertexFromDAG(ph[:])
+				verifrt.Assert(rerr == nil, "C09/createleaf/parent-still-live")
+				if rerr == nil {
+					verifrt.Assert(l.ab.validateLeaf(context.Background(), &pv) == nil, "C09/createleaf/parents-were-valid-tips")
+				}
+			}
 		}
 		verifrt.Reach(prop + "/createleaf/ok")
 		return
